@@ -6,7 +6,7 @@ From YV Require Import model.FiberSync proofs.FiberSyncLemmas.
 Import Sh.
 
 Definition good (v : variant) : Prop :=
-  v_sh_while v = true /\ v_shs_while v = true /\ v_st_while v = true /\ v_st_helper v = true.
+  v_sh_while v = true /\ v_shs_while v = true /\ v_st_while v = true /\ v_st_helper v = true /\ v_shs_eq v = true.
 
 (* which queue a waiting fiber sits in: true = _exclusive_queue *)
 Definition in_eq (p : pc) : Prop := match p with InLockX | InLockS | InTimed true _ _ => True | _ => False end.
@@ -219,11 +219,11 @@ Qed.
 
 (* ---- SharedMutex::lock / lock_shared at the test *)
 Lemma lock_head_inv v s f x first :
-  Inv s -> first = true \/ uses_while v x = true ->
+  Inv s -> v_shs_eq v = true -> first = true \/ uses_while v x = true ->
   ~ In f (eq s) -> ~ In f (sq s) -> ~ In f (xh s) -> ~ In f (sh s) ->
   Inv (lock_head v s f x first).
 Proof.
-  intros I Hv He Hs Hx Hh. unfold lock_head.
+  intros I HQ Hv He Hs Hx Hh. unfold lock_head. rewrite HQ, orb_true_r. simpl.
   assert (C : blocked s x && (first || uses_while v x) = blocked s x).
   { destruct Hv as [->| ->]; simpl; rewrite ?orb_true_r, andb_true_r; reflexivity. }
   rewrite C. destruct (blocked s x) eqn:B.
@@ -323,7 +323,7 @@ Qed.
 (* ---- one step *)
 Lemma step_inv v s e s' : good v -> Inv s -> step v s e = Some s' -> Inv s'.
 Proof.
-  intros [Hx [Hs [Ht Hh]]] I H. destruct e as [f t|f o]; unfold step in H.
+  intros [Hx [Hs [Ht [Hh HQ]]]] I H. destruct e as [f t|f o]; unfold step in H; rewrite ?HQ in H.
   - destruct (Nat.leb (now s) t) eqn:L; [|discriminate]. cbv zeta in H.
     pose proof (set_now_inv s t I) as I1.
     remember (set_now s t) as s1 eqn:E1. clear E1 I L.
@@ -333,7 +333,8 @@ Proof.
       assert (W : pcs s1 f <> Idle) by (rewrite PC; discriminate).
       destruct (waiting_not_holder s1 f I1 W).
       apply lock_head_inv; auto. apply in_eq_not_sq; auto. rewrite PC. exact Logic.I.
-    + destruct (mem f (eq s1)) eqn:M; [discriminate|]. some_inv. boolp.
+    + change (wq s1 true) with (eq s1) in H.
+      destruct (mem f (eq s1)) eqn:M; [discriminate|]. some_inv. boolp.
       assert (W : pcs s1 f <> Idle) by (rewrite PC; discriminate).
       destruct (waiting_not_holder s1 f I1 W).
       apply lock_head_inv; auto. apply in_eq_not_sq; auto. rewrite PC. exact Logic.I.
@@ -439,7 +440,7 @@ Lemma lock_head_winner v s f x first r g y :
   log (lock_head v s f x first) = r :: log s -> winner r = Some (g, y) -> holds (lock_head v s f x first) g y.
 Proof.
   unfold lock_head. destruct (blocked s x && _); simpl; intros E W.
-  - exfalso. exact (list_neq_cons _ _ E).
+  - exfalso. destruct (x || v_shs_eq v); simpl in E; exact (list_neq_cons _ _ E).
   - inv E. inv W. unfold holds. destruct y; simpl; left; reflexivity.
 Qed.
 
@@ -463,7 +464,7 @@ Proof.
     destruct (pcs s1 f) as [| | |x tm dl] eqn:PC.
     + some_inv. intros E. exfalso. exact (list_neq_cons _ _ E).
     + destruct (mem f (eq s1)); [discriminate|]. some_inv. apply lock_head_winner.
-    + destruct (mem f (eq s1)); [discriminate|]. some_inv. apply lock_head_winner.
+    + destruct (mem f (wq s1 (v_shs_eq v))); [discriminate|]. some_inv. apply lock_head_winner.
     + destruct (wait_status f (wq s1 x) (Some dl) t) as [[]|]; some_inv.
       * intros E W. eapply timed_head_winner; [|exact W]. destruct x; exact E.
       * simpl. intros E W. inv E. discriminate.
@@ -492,12 +493,21 @@ Lemma blocked_woken s f :
   occ s = true /\ (xh s <> [] \/ sh s <> []) /\ ~ In f (xh s) /\ ~ In f (sh s).
 Proof.
   intros I Q P. pose proof (Q f) as R. unfold resumable in R.
-  assert (IN : In f (eq s)) by (destruct P as [P|P]; rewrite P in R; boolp; assumption).
+  assert (IN : In f (eq s)).
+  { destruct P as [P|P]; rewrite P in R.
+    - boolp. assumption.
+    - apply negb_false_iff in R. apply orb_true_iff in R. destruct R as [R|R]; apply mem_In in R; [assumption|].
+      apply (a_sq s I) in R. rewrite P in R. contradiction. }
   assert (NE : eq s <> []) by (intro E; rewrite E in IN; contradiction).
   assert (W : pcs s f <> Idle) by (destruct P as [P|P]; rewrite P; discriminate).
   destruct (waiting_not_holder s f I W) as [HX HS].
   destruct (occ s) eqn:O.
   - split; [reflexivity|]. split; [|auto]. apply abs_occupied; auto. apply (a_abs s I).
-  - exfalso. destruct (a_wake s I O NE) as [g Hg]. pose proof (Q g) as Rg. unfold resumable, notified in *.
-    destruct (pcs s g) as [| | |[] ? ?]; try contradiction; try discriminate; boolp; contradiction.
+  - exfalso. destruct (a_wake s I O NE) as [g Hg]. pose proof (Q g) as Rg.
+    unfold resumable in Rg. unfold notified in Hg.
+    destruct (pcs s g) as [| | |[] ? ?] eqn:PG; try contradiction; try discriminate.
+    + boolp. contradiction.
+    + apply negb_false_iff in Rg. apply orb_true_iff in Rg.
+      destruct Rg as [Rg|Rg]; apply mem_In in Rg; [contradiction|].
+      apply (a_sq s I) in Rg. rewrite PG in Rg. exact Rg.
 Qed.
